@@ -641,7 +641,8 @@ func reifyDoArray(
 				to.Index(idx).Set(v)
 			}
 		} else {
-			if err := tryRecursiveValidate(to.Index(idx), opts.opts, nil); err != nil {
+			// an element kept from the pre-filled list
+			if err := validateKeptElem(to.Index(idx), opts.opts, opts.validators); err != nil {
 				return reflect.Value{}, raiseValidation(val.Context(), val.meta(), "", err)
 			}
 		}
